@@ -2,6 +2,9 @@
 // Oracle: a reference address grammar written here + inet_pton/inet_ntop of the generated
 // binary address.  Classes: must-accept / must-reject / unspecified (no-crash only).
 #include "common/harness.h"
+#include <thread>
+#include <mutex>
+#include <atomic>
 
 #include <pistache/net.h>
 
@@ -294,6 +297,86 @@ namespace
                                                                                     : "unspecified"; }
 }
 
+namespace
+{
+    // used during the static initialisation of the harness, i.e. before main() (see c20_base64.cc)
+    struct BeforeMain
+    {
+        std::string host4, host6, printed, what;
+        int port4 = -1, port6 = -1, fam4 = -1, fam6 = -1;
+        BeforeMain()
+        {
+            try
+            {
+                Address a("192.0.2.7:8080");
+                host4 = a.host();
+                port4 = int(uint16_t(a.port()));
+                fam4  = a.family();
+                Address b("[2001:db8::1]:443");
+                host6 = b.host();
+                port6 = int(uint16_t(b.port()));
+                fam6  = b.family();
+                std::ostringstream os;
+                os << a;
+                printed = os.str();
+            }
+            catch (const std::exception& e)
+            {
+                what = e.what();
+            }
+        }
+    };
+    const BeforeMain g_before_main;
+
+    // Several threads parse DIFFERENT addresses at the same moment (an application with several client threads does):
+    // each must get its own host, port and family back.  One case in sixteen, by the case's bytes.
+    Verdict concurrent_parsers(const uint8_t* data, size_t size, Report& rep)
+    {
+        uint64_t h = fnv1a(data, size, 0xc19);
+        if (h % 16)
+            return Verdict::pass();
+        rep.label("three-threads-parsing-different-addresses");
+        std::mutex m;
+        std::string failure;
+        std::atomic<bool> go { false };
+        std::vector<std::thread> th;
+        for (int t = 0; t < 3; ++t)
+            th.emplace_back([&, t] {
+                while (!go)
+                {
+                }
+                for (int i = 0; i < 120; ++i)
+                {
+                    std::string host = "10." + std::to_string(1 + t) + "." + std::to_string((h >> 8) % 200) + "." + std::to_string(1 + i % 250);
+                    uint16_t port    = uint16_t(1024 + t * 1000 + i);
+                    try
+                    {
+                        Address a = i % 2 ? Address(host + ":" + std::to_string(port)) : Address(host, Port(port));
+                        if (a.host() != host || uint16_t(a.port()) != port || a.family() != AF_INET)
+                        {
+                            std::lock_guard<std::mutex> g(m);
+                            if (failure.empty())
+                                failure = "thread " + std::to_string(t) + " parsed \"" + host + ":" + std::to_string(port) + "\" and got host " + a.host() + " port " + std::to_string(uint16_t(a.port()));
+                            return;
+                        }
+                    }
+                    catch (const std::exception& e)
+                    {
+                        std::lock_guard<std::mutex> g(m);
+                        if (failure.empty())
+                            failure = "thread " + std::to_string(t) + ": \"" + host + ":" + std::to_string(port) + "\" threw " + e.what();
+                        return;
+                    }
+                }
+            });
+        go = true;
+        for (auto& x : th)
+            x.join();
+        V_CHECK(failure.empty(), "C19/concurrent-parsers", "three threads parsing different IPv4 addresses at the same moment: " + failure);
+        return Verdict::pass();
+    }
+}
+
 namespace verif
 {
     HarnessInfo harness_info() { return { "C19", 96 }; }
@@ -301,6 +384,21 @@ namespace verif
 
     Verdict run_case(const uint8_t* data, size_t size, Report& rep)
     {
+        {
+            static bool judged = false;
+            if (!judged)
+            {
+                judged              = true;
+                const BeforeMain& b = g_before_main;
+                rep.label("used-before-main");
+                V_CHECK(b.what.empty(), "C19/before-main/throws", "Address used from the initialiser of a namespace-scope object threw: " + b.what);
+                V_CHECK(b.host4 == "192.0.2.7" && b.port4 == 8080 && b.fam4 == AF_INET && b.host6 == "2001:db8::1" && b.port6 == 443 && b.fam6 == AF_INET6 && b.printed == "192.0.2.7:8080",
+                        "C19/before-main/wrong", "addresses parsed before main(): " + b.host4 + ":" + std::to_string(b.port4) + ", [" + b.host6 + "]:" + std::to_string(b.port6) + ", printed \"" + b.printed + "\"");
+            }
+            Verdict cv = concurrent_parsers(data, size, rep);
+            if (cv.kind != Verdict::Pass)
+                return cv;
+        }
         GroupingLocale loc(GroupingLocale::wanted(data, size));
         if (loc.on)
             rep.label("global-locale-groups-digits");
